@@ -206,7 +206,7 @@ func vDiskDigest(fn string) string {
 }
 
 // vEnvFault arranges a real environment fault and returns the function that undoes it.
-func vEnvFault(t *testing.T, dir, env string) func() {
+func vEnvFault(t vFataler, dir, env string) func() {
 	must := func(err error) {
 		if err != nil {
 			t.Fatalf("env %s: %v", env, err)
@@ -261,7 +261,7 @@ func vDoOp(p *vStorePlan, o vStoreOp) error {
 	panic("bad op")
 }
 
-func vReadPlan(t *testing.T) *vStorePlan {
+func vReadPlan(t vFataler) *vStorePlan {
 	var p vStorePlan
 	b, err := os.ReadFile(os.Getenv("VERIF_PLAN"))
 	if err != nil {
@@ -301,16 +301,47 @@ func errnoName(err error) string {
 	return "other"
 }
 
-// TestVerifStoreChild: role "child" and "loop".
-func TestVerifStoreChild(t *testing.T) {
+// The child roles run inside init(): during package initialisation the main goroutine is locked to the main OS
+// thread, so every syscall of the run - the loader's, the runtime's start-up and the stores - is issued by ONE
+// thread in a reproducible order.  strace counts syscall invocations per thread (`inject=...:when=k`); this makes
+// k computed from an uninjected run valid for the injected one.
+func init() {
 	role := os.Getenv("VERIF_ROLE")
-	if role != "child" && role != "loop" {
-		t.Skip("not a child invocation")
+	if role == "child" || role == "loop" {
+		vChildMain(role)
+		os.Exit(0)
 	}
+}
+
+// TestVerifStoreChild exists so that the binary has a test to select; the work happens in init().
+func TestVerifStoreChild(t *testing.T) {
+	t.Skip("not a child invocation")
+}
+
+type vFataler struct{}
+
+func (vFataler) Fatalf(f string, a ...any) {
+	fmt.Fprintf(os.Stderr, "child: "+f+"\n", a...)
+	os.Exit(4)
+}
+
+func vChildMain(role string) {
+	t := vFataler{}
 	runtime.LockOSThread()
 	signal.Ignore(syscall.SIGXFSZ) // a write beyond RLIMIT_FSIZE then fails with EFBIG instead of killing us
 	log.SetOutput(io.Discard)
 	p := vReadPlan(t)
+	if role == "child" {
+		// strace counts invocations per thread and applies `when=k` to every thread.  Push this thread's counters
+		// far beyond anything the runtime's own threads will ever reach (their netpoll wake-up writes, for
+		// instance), so that an injection aimed at a store step cannot also hit a runtime-internal syscall.
+		for i := 0; i < 64; i++ {
+			if f, err := os.OpenFile("/dev/null", os.O_WRONLY, 0); err == nil {
+				f.Write([]byte{0})
+				f.Close()
+			}
+		}
+	}
 
 	_, ierr := AssetsSetDir(p.Dir)
 	if role == "loop" {
